@@ -31,7 +31,15 @@ func NewVerifServer(storage Storage, clock func() bigtable.Timestamp) *VerifServ
 	}
 	for _, tbl := range s.storage.GetTables() {
 		rows := s.storage.Open(tbl)
-		s.tables[tbl.Name] = newTable(tbl, rows)
+		t := newTable(tbl, rows)
+		// as NewServerWithOptions: finish an interrupted purge of a dropped family
+		t.rows.Ascend(func(r *btpb.Row) bool {
+			if r, changed := scrubRow(r, t.cols()); changed {
+				t.updateRow(r)
+			}
+			return true
+		})
+		s.tables[tbl.Name] = t
 	}
 	return s
 }
